@@ -63,12 +63,26 @@ static void out_cb(struct evbuffer *b, const struct evbuffer_cb_info *i, void *a
 	(void)a;
 	if (i->n_deleted && !harness_draining) addlog(L_XFER_W, 0, i->n_deleted, evbuffer_get_length(b));
 }
-static void b_readcb(struct bufferevent *bev, void *a) { (void)bev; (void)a; n_readcb++; }
+/* With a read high-water mark reached and a reader that does not drain, libevent
+ * re-schedules the (deferred) read callback for ever (bufferevent_inbuf_wm_check):
+ * a NONBLOCK loop would never return.  Timers activated in the same iteration sit
+ * in the same queue behind at most one such callback, so breaking out after a
+ * few invocations loses nothing. */
+static int rd_in_call;
+static void b_readcb(struct bufferevent *bev, void *a)
+{
+	(void)bev; (void)a; n_readcb++;
+	if (++rd_in_call >= 4) event_base_loopbreak(base);
+}
 static void b_writecb(struct bufferevent *bev, void *a) { (void)bev; (void)a; n_writecb++; }
 static void b_eventcb(struct bufferevent *bev, short what, void *a)
 {
 	(void)bev; (void)a; n_eventcb++;
-	addlog(L_EVENT, what, 0, 0);
+	/* deferred callbacks OR the pending events together: TIMEOUT|READING|WRITING = both directions timed out */
+	if (what == (BEV_EVENT_TIMEOUT|BEV_EVENT_READING|BEV_EVENT_WRITING)) {
+		addlog(L_EVENT, BEV_EVENT_TIMEOUT|BEV_EVENT_READING, 0, 0);
+		addlog(L_EVENT, BEV_EVENT_TIMEOUT|BEV_EVENT_WRITING, 0, 0);
+	} else addlog(L_EVENT, what, 0, 0);
 }
 static void p_eventcb(struct bufferevent *bev, short what, void *a)
 {
@@ -192,9 +206,10 @@ static void m_consume(int after_loop)
 static void loop_steps(void)
 {
 	for (int i = 0; i < 32; i++) {
-		long c0 = n_readcb + n_writecb + n_eventcb; int l0 = nlog;
+		long c0 = n_writecb + n_eventcb; int l0 = nlog;
+		rd_in_call = 0;
 		event_base_loop(base, EVLOOP_NONBLOCK);
-		if (c0 == n_readcb + n_writecb + n_eventcb && l0 == nlog) return;
+		if (c0 == n_writecb + n_eventcb && l0 == nlog) return;
 	}
 	mc_fail("C20/harness/loop-does-not-settle", "32 loop steps without quiescence"); dead = 1;
 }
